@@ -1,0 +1,58 @@
+// Package verifhook provides schedule points for runtime verification
+// harnesses. Without the "verif" build tag Point is an empty function that is
+// inlined away.
+package verifhook
+
+// Schedule point identifiers.
+const (
+	CtrLoaded1 = iota + 1
+	CtrLoaded2
+	GaugeBetweenStores
+	GaugeSwapped
+	MetricProbeMissed
+	PassBegin
+	PassLocked
+	PassEnd
+	CloseEnter
+	CloseBeforeFinal
+	CloseAfterFinal
+	RegScopeReported
+	RemoveHandover1
+	RemoveHandover2
+	ReacquireBeforeReport
+	SubscopeUpgrade
+	M3Entered
+	M3Checked
+	M3CloseCAS
+	M3CloseDrained
+	M3CloseDonech
+	UDPFlushed
+	NumPoints
+)
+
+// Names maps schedule point identifiers to their names.
+var Names = [...]string{
+	0:                     "none",
+	CtrLoaded1:            "CtrLoaded1",
+	CtrLoaded2:            "CtrLoaded2",
+	GaugeBetweenStores:    "GaugeBetweenStores",
+	GaugeSwapped:          "GaugeSwapped",
+	MetricProbeMissed:     "MetricProbeMissed",
+	PassBegin:             "PassBegin",
+	PassLocked:            "PassLocked",
+	PassEnd:               "PassEnd",
+	CloseEnter:            "CloseEnter",
+	CloseBeforeFinal:      "CloseBeforeFinal",
+	CloseAfterFinal:       "CloseAfterFinal",
+	RegScopeReported:      "RegScopeReported",
+	RemoveHandover1:       "RemoveHandover1",
+	RemoveHandover2:       "RemoveHandover2",
+	ReacquireBeforeReport: "ReacquireBeforeReport",
+	SubscopeUpgrade:       "SubscopeUpgrade",
+	M3Entered:             "M3Entered",
+	M3Checked:             "M3Checked",
+	M3CloseCAS:            "M3CloseCAS",
+	M3CloseDrained:        "M3CloseDrained",
+	M3CloseDonech:         "M3CloseDonech",
+	UDPFlushed:            "UDPFlushed",
+}
